@@ -35,6 +35,13 @@ def run(ctx):
     from ..engines import mapplumbing as M
     M.m4b_verification_levels(ctx)
     SC.s4_forest_keys(ctx)
+    # shifts and keys are functions of (class, children): nothing memoises them under less
+    from ..engines import forestrules as E
+    E.e10_memo_keyed_by_arguments(ctx)
+    ctx.floor("E10", 7)
+    from ..engines import varkind as V
+    V.v11_provider_results_not_written(ctx)
+    ctx.floor("V11", 2)
     ctx.floor("S0", 4)
     ctx.floor("S1", 20)
     ctx.floor("S2", 3)
